@@ -380,6 +380,11 @@ class Interp(ExprMixin, StmtMixin):
             r = mm(self, path, recv, args, kwargs)
             if r is not _MISSING:
                 return r
+        h0 = self.hooks.get("method")
+        if h0 is not None:
+            r = h0(self, path, recv, name, args, kwargs)
+            if r is not _MISSING:
+                return r
         if isinstance(recv, SDict):
             if name == "items":
                 return ItemsView(recv)
@@ -419,7 +424,7 @@ class Interp(ExprMixin, StmtMixin):
             if name in ("add", "clear", "union"):
                 return getattr(recv, name)(*args)
         if isinstance(recv, str):
-            if all(not isinstance(a, (SV, SInt, SBool, SText)) for a in args):
+            if all(not isinstance(a, (SV, SInt, SBool, SText, SSeq)) for a in args):
                 return getattr(recv, name)(*args, **kwargs)
         if isinstance(recv, SText):
             h = self.hooks.get("text_method")
@@ -453,8 +458,9 @@ class Interp(ExprMixin, StmtMixin):
         deep_sym = any(sym(a) or (isinstance(a, (tuple, list)) and any(sym(x) for x in a)) for a in args) \
             or any(sym(v) for v in kwargs.values())
         if not deep_sym:
-            if f in self.safe_concrete or getattr(f, "__module__", "") in ("builtins", "operator", "typing",
-                                                                          "inspect", "dataclasses"):
+            if f in self.safe_concrete or getattr(f, "__module__", "") in (
+                    "builtins", "operator", "typing", "inspect", "dataclasses", "datetime", "decimal", "fractions", "uuid",
+                    "pathlib", "re", "collections", "enum", "types", "itertools", "ast", "_ast", "typing_extensions"):
                 try:
                     return f(*args, **kwargs)
                 except Exception as e:   # a real exception raised by a concrete call is a modelled raise
